@@ -245,6 +245,8 @@ async function check (leaf, resps) {
 
 module.exports = {
   id: 'C05',
+  thoroughWorkers: 8,
+  thoroughHeapMB: 7000,
   build,
   requests,
   check,
